@@ -13,6 +13,7 @@ assignment under the object's own dialect … never fail because of the dialect 
 spellings are further down (`roundtrip_*`, `spellings`).
 -/
 import NetaddrVerif.Lemmas.C08L
+import NetaddrVerif.Props.C15
 namespace NV.C08
 open NV NV.Eui NV.Codec NV.Gen
 
@@ -262,5 +263,121 @@ theorem eq_hash_by_value (ver1 v1 ver2 v2 : Nat) :
             simp
 
 example : tupleCmp (key 48 5) (key 64 4) = .lt := by rfl
+
+/-! ## word access under the object's own dialect -/
+
+private theorem words_ok (v : Nat) (d : Dialect) (hv : v < 2 ^ (d.numWords * d.wordSize)) :
+    intToWords v d.wordSize d.numWords = .ok (wordsLoop d.wordSize d.numWords v).reverse := by
+  have := pow_pos2 (d.numWords * d.wordSize)
+  simp only [intToWords]; rw [if_pos (by omega)]
+
+/-- `e[i]` for `0 ≤ i < num_words` is digit `num_words-1-i` of the value in base 2^word_size,
+    a negative index counts from the end, anything else is an IndexError — for every dialect
+    (every word size / word count), never a failure caused by the dialect -/
+theorem getIdx_spec (v : Nat) (d : Dialect) (hv : v < 2 ^ (d.numWords * d.wordSize)) (idx : Int) :
+    (∀ i : Nat, idx = i → i < d.numWords →
+        getIdx v d idx = .ok (v / 2 ^ (d.wordSize * (d.numWords - 1 - i)) % 2 ^ d.wordSize)) ∧
+    (∀ i : Nat, idx = (i : Int) - d.numWords → i < d.numWords →
+        getIdx v d idx = .ok (v / 2 ^ (d.wordSize * (d.numWords - 1 - i)) % 2 ^ d.wordSize)) ∧
+    (idx < -(d.numWords : Int) ∨ (d.numWords : Int) ≤ idx → getIdx v d idx = .error .index) := by
+  have hlen : (wordsLoop d.wordSize d.numWords v).reverse.length = d.numWords := by simp [wordsLoop_length]
+  refine ⟨?_, ?_, ?_⟩
+  · intro i hi hlt
+    subst hi
+    have hg : ¬ ¬ (-(d.numWords : Int) ≤ (i : Int) ∧ (i : Int) ≤ (d.numWords : Int) - 1) := by omega
+    simp only [getIdx, hg, if_false, words_ok v d hv]
+    have hp : pyIndex (wordsLoop d.wordSize d.numWords v).reverse (i : Int) =
+        some (v / 2 ^ (d.wordSize * (d.numWords - 1 - i)) % 2 ^ d.wordSize) := by
+      simp only [pyIndex]
+      rw [if_neg (by omega), if_neg (by omega), Int.toNat_natCast]
+      exact beWords_get _ _ _ _ hlt
+    simp only [bind, Except.bind, hp]; rfl
+  · intro i hi hlt
+    subst hi
+    have hg : ¬ ¬ (-(d.numWords : Int) ≤ (i : Int) - d.numWords ∧ (i : Int) - d.numWords ≤ (d.numWords : Int) - 1) := by
+      omega
+    simp only [getIdx, hg, if_false, words_ok v d hv]
+    have hp : pyIndex (wordsLoop d.wordSize d.numWords v).reverse ((i : Int) - d.numWords) =
+        some (v / 2 ^ (d.wordSize * (d.numWords - 1 - i)) % 2 ^ d.wordSize) := by
+      have hneg : ((i : Int) - d.numWords < 0) := by omega
+      have e : (i : Int) - d.numWords + d.numWords = i := by omega
+      have hnn : ¬ ((i : Int) < 0) := by omega
+      simp only [pyIndex, hlen, hneg, if_true, e, hnn, if_false, Int.toNat_natCast]
+      exact beWords_get _ _ _ _ hlt
+    simp only [bind, Except.bind, hp]; rfl
+  · intro h
+    have hg : ¬ (-(d.numWords : Int) ≤ idx ∧ idx ≤ (d.numWords : Int) - 1) := by omega
+    simp only [getIdx, hg, not_false_eq_true, if_true]
+
+example : getIdx 0x001b774954fd ⟨"mac_cisco", 16, 3, ['.'], 4, false⟩ 1 = .ok 0x7749 := by rfl
+example : getIdx 0x001b774954fd ⟨"mac_cisco", 16, 3, ['.'], 4, false⟩ (-1) = .ok 0x54fd := by rfl
+example : getIdx 0x001b774954fd ⟨"mac_cisco", 16, 3, ['.'], 4, false⟩ 3 = .error .index := by rfl
+
+/-- `e[i] = x` succeeds for every index `0 ≤ i < num_words` and every `0 ≤ x < 2^word_size` of
+    the object's own dialect; afterwards word i reads x, every other word is unchanged, and the
+    value is still in range -/
+theorem setItem_spec (v : Nat) (d : Dialect) (hv : v < 2 ^ (d.numWords * d.wordSize)) (i x : Nat)
+    (hi : i < d.numWords) (hx : x < 2 ^ d.wordSize) :
+    ∃ r, setItem v d i x = .ok r ∧ r < 2 ^ (d.numWords * d.wordSize) ∧ getIdx r d i = .ok x ∧
+      ∀ j : Nat, j < d.numWords → j ≠ i → getIdx r d j = getIdx v d j := by
+  let W := (wordsLoop d.wordSize d.numWords v).reverse
+  have hWlen : W.length = d.numWords := by simp [W, wordsLoop_length]
+  have hWlt : ∀ a ∈ W, a < 2 ^ d.wordSize := fun a ha => wordsLoop_lt _ _ _ a (by simpa [W] using ha)
+  let W' := W.set i x
+  have hW'len : W'.length = d.numWords := by simp [W', hWlen]
+  have hW'lt : ∀ a ∈ W', a < 2 ^ d.wordSize := by
+    intro a ha
+    rcases List.mem_or_eq_of_mem_set ha with h | h
+    · exact hWlt a h
+    · rw [h]; exact hx
+  let r := beWordsValue d.wordSize W'
+  have hr : r < 2 ^ (d.numWords * d.wordSize) := by
+    have := leValue_lt d.wordSize W'.reverse (fun a ha => hW'lt a (by simpa using ha))
+    simpa [r, beWordsValue, hW'len, Nat.mul_comm] using this
+  have hset : setItem v d i x = .ok r := by
+    have g1 : ¬ ¬ ((0 : Int) ≤ (i : Int) ∧ (i : Int) ≤ (d.numWords : Int) - 1) := by omega
+    have g2 : ¬ ¬ ((0 : Int) ≤ (x : Int) ∧ (x : Int) ≤ (2 : Int) ^ d.wordSize - 1) := by
+      have : (x : Int) < (2 : Int) ^ d.wordSize := by exact_mod_cast hx
+      omega
+    simp only [setItem, g1, g2, if_false, words_ok v d hv, Int.toNat_natCast]
+    simp only [bind, Except.bind]
+    exact (C15.wordsToInt_spec _ _ _).1 ⟨hW'len, hW'lt⟩
+  -- reading the words of r gives back W'
+  have hback : (wordsLoop d.wordSize d.numWords r).reverse = W' := by
+    have h1 : leValue d.wordSize (wordsLoop d.wordSize d.numWords r) = r := by
+      rw [leValue_wordsLoop, Nat.mul_comm]; exact Nat.mod_eq_of_lt hr
+    have h2 : leValue d.wordSize W'.reverse = r := rfl
+    have := leValue_inj d.wordSize (wordsLoop d.wordSize d.numWords r) W'.reverse
+      (by simp [wordsLoop_length, hW'len]) (wordsLoop_lt _ _ _)
+      (fun a ha => hW'lt a (by simpa using ha)) (by rw [h1, h2])
+    rw [this, List.reverse_reverse]
+  have hget : ∀ (u : Nat) (hu : u < 2 ^ (d.numWords * d.wordSize)) (j : Nat), j < d.numWords →
+      getIdx u d j = match (wordsLoop d.wordSize d.numWords u).reverse[j]? with
+        | some a => .ok a | none => .error .index := by
+    intro u hu j hj
+    have hg : ¬ ¬ (-(d.numWords : Int) ≤ (j : Int) ∧ (j : Int) ≤ (d.numWords : Int) - 1) := by omega
+    simp only [getIdx, hg, if_false, words_ok u d hu, bind, Except.bind, pyIndex]
+    rw [if_neg (by omega), if_neg (by omega), Int.toNat_natCast]
+    cases (wordsLoop d.wordSize d.numWords u).reverse[j]? <;> rfl
+  refine ⟨r, hset, hr, ?_, ?_⟩
+  · rw [hget r hr i hi, hback]
+    simp [W', hWlen, hi]
+  · intro j hj hne
+    rw [hget r hr j hj, hget v hv j hj, hback]
+    have : ¬ i = j := fun e => hne e.symm
+    simp [W', W, this]
+
+/-- assignment is rejected (IndexError) exactly for an index outside `0 .. num_words-1` or a
+    value outside `0 .. 2^word_size-1` -/
+theorem setItem_reject (v : Nat) (d : Dialect) (idx value : Int)
+    (h : idx < 0 ∨ (d.numWords : Int) ≤ idx ∨ value < 0 ∨ (2 : Int) ^ d.wordSize ≤ value) :
+    setItem v d idx value = .error .index := by
+  by_cases g1 : (0 : Int) ≤ idx ∧ idx ≤ (d.numWords : Int) - 1
+  · have g2 : ¬ ((0 : Int) ≤ value ∧ value ≤ (2 : Int) ^ d.wordSize - 1) := by omega
+    simp only [setItem, g1, not_true_eq_false, if_false, g2, not_false_eq_true, if_true, and_self]
+  · simp only [setItem, g1, not_false_eq_true, if_true]
+
+example : setItem 0x001b774954fd ⟨"mac_cisco", 16, 3, ['.'], 4, false⟩ 0 0xffff = .ok 0xffff774954fd := by rfl
+example : setItem 0x001b774954fd ⟨"mac_cisco", 16, 3, ['.'], 4, false⟩ 0 0x10000 = .error .index := by rfl
 
 end NV.C08
